@@ -7,6 +7,7 @@
 -/
 import SqlizeModel.Spec.Props
 import SqlizeModel.Impl.Emit
+import SqlizeModel.Proofs.TableOrder
 
 namespace Sqlize.Spec.Scope.Proved
 
@@ -69,5 +70,35 @@ def whyNot (g : Globals) (old new : List Stmt) (dbO dbN : DB) : String :=
       tbN.fks.all (fun s => tbO.fks.all (fun o => s.name != o.name || decide (s = o))))) then "foreign-key-redefined"
   else if !pairOK true dbO dbN then "common-table"
   else "inside"
+
+-- ---------------------------------------------------------------------------------------------------------------
+-- C04: revision lists (newest first, each script with the reference schema it describes)
+
+/-- the schema the revisions leave -/
+def lastOf : List (List Stmt × DB) → DB
+  | [] => []
+  | p :: _ => p.2
+
+/-- the revisions of a workflow, newest first, with their reference schemas (referential checks off, as in the theorems) -/
+def revsOf (scripts : List (List Stmt)) : Option (List (List Stmt × DB)) :=
+  scripts.foldl (fun acc ss => match acc, execAll false [] ss with
+    | some revs, some db => some ((ss, db) :: revs)
+    | _, _ => none) (some [])
+
+/-- inside the scope of `C04.model_converges` / `model_next_diff_empty`: every revision in the vocabulary, every step inside
+    the scope of the whole-schema theorem of C01 -/
+def chainUp : List (List Stmt × DB) → Bool
+  | [] => true
+  | p :: older => p.1.all stmtElemSafe && p.1.all stmtPlainOpts && pairOK true (lastOf older) p.2 && chainUp older
+
+/-- … and of `C04.model_down_returns`: every step inside the scope of the C02 theorem too -/
+def chainDown : List (List Stmt × DB) → Bool
+  | [] => true
+  | p :: older => pairOK false (lastOf older) p.2 && chainDown older
+
+/-- … and of `C04.model_fingerprint`: the tables two consecutive revisions share come first, the new ones after them -/
+def chainOrdered : List (List Stmt × DB) → Bool
+  | [] => true
+  | p :: older => (namesAfter ((lastOf older).map (·.name)) (p.2.map (·.name)) == p.2.map (·.name)) && chainOrdered older
 
 end Sqlize.Spec.Scope.Proved
